@@ -57,10 +57,11 @@ type GenesisCase struct {
 }
 
 // AmountTable (Gwei) relative to a 32 ETH MAX_EFFECTIVE_BALANCE.
-var AmountTable = []uint64{32_000_000_000, 32_000_000_000, 33_500_000_000, 32_300_000_000, 31_000_000_000, 17_000_000_000, 40_000_000_000}
+var AmountTable = []uint64{32_000_000_000, 32_000_000_000, 33_500_000_000, 32_300_000_000, 31_000_000_000, 17_000_000_000, 40_000_000_000,
+	500_000_000, 1_100_000_000} // 7, 8: deposits that create validators with an effective balance of 0 / 1 ETH
 
 type DepPlan struct {
-	Kind   int  `json:"kind"`   // 0 new valid, 1 top-up of existing, 2 bad proof-of-possession, 3 invalid pubkey bytes, 4 repeat of a new key (top-up before first seen)
+	Kind   int  `json:"kind"`   // 0 new valid, 1 top-up of existing, 2 bad proof-of-possession, 3 invalid pubkey bytes, 4 repeat of a new key (top-up before first seen), 5 top-up of the validator with the lowest effective balance
 	Amount int  `json:"amount"` // index into AmountTable, or small top-ups
 	Eth1   bool `json:"eth1"`
 	Target int  `json:"target"` // top-up: validator selector
@@ -278,11 +279,18 @@ func (c *Chain) queueDeposits(st *refspec.State, plans []DepPlan, pr *prng) {
 		var d refspec.DepositData
 		amt := AmountTable[dp.Amount%len(AmountTable)]
 		switch dp.Kind {
-		case 1: // top-up of an existing validator
+		case 1, 5: // top-up of an existing validator (5: of the one with the lowest effective balance, latest index on ties)
 			if len(st.Validators) == 0 {
 				continue
 			}
 			vi := dp.Target % len(st.Validators)
+			if dp.Kind == 5 {
+				for i := range st.Validators {
+					if st.Validators[i].EffectiveBalance <= st.Validators[vi].EffectiveBalance {
+						vi = i
+					}
+				}
+			}
 			k, ok := c.KeyOf[st.Validators[vi].Pubkey]
 			if !ok {
 				continue
